@@ -47,34 +47,90 @@ def io_performing(F):
 # ---------------------------------------------------------------------------------------------- C17 error discipline
 
 def result_propagated(an, cs):
-    """The Result produced at call site cs is examined by `?` (or an equivalent match) and every outcome of the
-    function that is reached with the result being Err returns that very error.  Returns (ok, why)."""
+    """The Result produced at call site cs reaches the caller as an error whenever it is Err: see failure_propagated."""
+    return failure_propagated(an, cs, norm(cs.term["dest"]["ty"]))
+
+
+def failure_propagated(an, cs, dty):
+    """every outcome of the function reached with the call's result being Err / None is an error (or the result itself, returned unchanged)"""
     R = cs.result
+    vs = ["Ok", "Err"] if dty.startswith("result::Result") else ["Some", "None"]
+    base, names = an.norm_var(R, vs)
+    if base is None:
+        return True, "statically known outcome"
+    failname, okname = names[1], names[0]
+
+    def is_forward(t):
+        if t is R:
+            return True
+        for cand in (["Ok", "Err"], ["Some", "None"]):
+            bx, nx = an.norm_var(t, cand)
+            if bx is base and nx[1] == failname:
+                return True
+        return False
+
+    def is_err(t):
+        return t.op == "agg" and t.args[3] == "Err"
+    ps = an.paths()
+    if ps is not None:
+        # loop-free body: every path through the call site must know how the read ended, and a failed read must end in an error
+        through = [(t, st, [c for c in calls if c.block == cs.block][0]) for t, st, calls in ps if any(c.block == cs.block for c in calls)]
+        if not through:
+            return True, "the call is on no feasible path"
+        fail = nfwd = 0
+        for t, st, c in through:
+            # on a single path the call's result is a path-specific term
+            b2, n2 = an.norm_var(an.simp(c.result, st.facts), vs)
+            if b2 is None:
+                if n2 == 1:
+                    fail += 1
+                    if not is_err(t):
+                        return False, "an outcome reached with the read having failed returns %s" % pp(t)[:140]
+                continue
+            fwd = t is c.result or any(an.norm_var(t, cand)[0] is b2 and an.norm_var(t, cand)[1][1] == n2[1] for cand in (["Ok", "Err"], ["Some", "None"]))
+            if ("var", b2, n2[1]) in st.facts:
+                fail += 1
+                if not is_err(t) and not fwd:
+                    return False, "an outcome reached with the read having failed returns %s" % pp(t)[:140]
+            elif ("var", b2, n2[0]) in st.facts:
+                continue
+            elif fwd:
+                nfwd += 1
+            else:
+                return False, "a path through the read returns %s without its result having been examined (dropped, `.ok()`, `unwrap_or`, handed to a combinator...)" % pp(t)[:100]
+        if fail == 0 and nfwd == 0:
+            return False, "no outcome of the function is tied to the failure of this read"
+        return True, "on all %d paths through the read its failure ends in an error (or the result is forwarded)" % len(through)
     leaves = an.ret_leaves()
     if leaves is None:
         return False, "cannot enumerate outcomes"
-    # the discriminant of R must be tested on every path from the call to a return
-    tested = [b for b, d in an.switches.items() if b in an.entry and _tests(an, d, R)]
+
+    def tests(d):
+        if d.op != "discr":
+            return False
+        x = d.args[0]
+        for cand in (["Continue", "Break"], ["Ok", "Err"], ["Some", "None"]):
+            bx, _ = an.norm_var(x, cand)
+            if bx is base:
+                return True
+        return False
+    tested = [b for b, d in an.switches.items() if b in an.entry and tests(d) and an.dominates(cs.block, b)]
+    forwarded = [t for t, st in leaves if is_forward(t)]
     if not tested:
-        return False, "the Result of %s is never tested (dropped, `.ok()`, `let _ =`, unwrap_or...)" % cs.callee_norm
-    s = tested[0]
-    if not an.dominates(cs.block, s):
-        return False, "the test of the Result does not follow the call"
-    # no return reachable from the call that bypasses the test
-    for rb in an.return_blocks():
-        pass
-    if _bypass(an, cs.block, s):
-        return False, "a path from the call reaches a return without testing the Result"
-    n_err = 0
+        if forwarded:
+            return True, "result returned unchanged"
+        return False, "the result is never examined (dropped, `.ok()`, `unwrap_or`, `if let`, handed to a combinator...)"
+    if _bypass(an, cs.block, tested[0]) and not forwarded:
+        return False, "a path from the read reaches a return without examining its result"
+    fail = 0
     for t, st in leaves:
-        # facts of an expanded outcome are expressed in the resolved merge values: look the result up in that form too
-        if ("var", R, "Err") in st.facts or ("var", an.simp(R, st.facts), "Err") in st.facts:
-            n_err += 1
-            if not (t.op == "agg" and t.args[3] == "Err"):
-                return False, "an outcome reached with the I/O result being Err returns %s instead of an error" % pp(t)[:160]
-    if n_err == 0:
-        return False, "no outcome of the function carries the error of this call"
-    return True, "tested on every path; the %d outcome(s) reached with it being Err return an error" % n_err
+        if ("var", base, failname) in st.facts:
+            fail += 1
+            if not is_err(t) and not is_forward(t):
+                return False, "an outcome reached with the read having failed returns %s" % pp(t)[:140]
+    if fail == 0:
+        return False, "no outcome of the function is tied to the failure of this read"
+    return True, "the %d outcome(s) reached with the read having failed are errors" % fail
 
 
 def _tests(an, d, R):
@@ -216,6 +272,38 @@ def rule_cache_protocol(F, rep, rule="cache-protocol", keys="exact"):
                             "only open_stream clears the cache", "%s clears the cache: later get_bytes may find nothing" % fn["qual"])
 
 
+def io_home(F):
+    """CachingReader::{new, load_bytes} and the private helpers that only they (transitively) call: where I/O may be performed"""
+    key = ("io_home", id(F))
+    if key in _IOHOME:
+        return _IOHOME[key]
+    from .engine import program
+    prog = program(F)
+    home = {"elf_stream::CachingReader::new", "elf_stream::CachingReader::load_bytes"}
+    callers = {}
+    for fn in F.all_fns():
+        for cs in analyze_fn(F, fn).calls():
+            lf = prog.local_fn(cs.callee)
+            if lf is not None:
+                callers.setdefault(lf["qual"], set()).add(fn["qual"])
+    changed = True
+    while changed:
+        changed = False
+        for fn in stream_fns(F):
+            q = fn["qual"]
+            if q in home or prog.known_name(fn) or fn["kind"] == "Closure":
+                continue
+            cs_ = callers.get(q, set())
+            if cs_ and cs_ <= home:
+                home.add(q)
+                changed = True
+    _IOHOME[key] = home
+    return home
+
+
+_IOHOME = {}
+
+
 def rule_io_protocol(F, rep, rule="io-protocol"):
     """load_bytes: absolute seek to range.start dominates the read; the read is read_exact into range.len() bytes;
     no other Read method is called anywhere in the module; insert only after both succeeded."""
@@ -228,7 +316,7 @@ def rule_io_protocol(F, rep, rule="io-protocol"):
             n += 1
             m = cs.callee["trait_method"]["name"]
             tr = norm(cs.callee["trait_method"]["trait"])
-            where_ok = fn["qual"] in ("elf_stream::CachingReader::new", "elf_stream::CachingReader::load_bytes")
+            where_ok = fn["qual"] in io_home(F)
             rep.require(where_ok, rule, "io-site|%s|%s" % (fn["qual"], m), cs.where(), "I/O only inside CachingReader::{new, load_bytes}",
                         "%s performs %s::%s directly (reads must go through the bounded, cached load_bytes)" % (fn["qual"], tr, m))
             if tr == "io::Read":
@@ -278,9 +366,10 @@ def rule_io_protocol(F, rep, rule="io-protocol"):
                     "the cached value %s is not the buffer filled by read_exact" % pp(v)[:160])
     # Ok outcomes: either the key was already cached, or the insert happened
     ck = [c for c in an.calls() if c.declared_norm.endswith("HashMap::contains_key")]
-    for t, st in an.ret_leaves() or []:
+    ps = an.paths()
+    for t, st in ([(t_, st_) for t_, st_, _ in ps] if ps is not None else (an.ret_leaves() or [])):
         if t.op == "agg" and t.args[3] == "Ok":
-            cached = ck and ("true", ck[0].result) in st.facts
+            cached = ck and (("true", ck[0].result) in st.facts or an.truth(st.facts, ck[0].result) is True)
             inserted = ins and ("var", rd.result, "Ok") in st.facts and ("var", sk.result, "Ok") in st.facts
             rep.require(bool(cached or inserted), rule, "load_bytes:ok-means-cached", w, "Ok only when cached or freshly read",
                         "load_bytes returns Ok on a path where the range is neither cached nor read")
@@ -322,12 +411,50 @@ def rule_load_before_get(F, rep, rule="load-before-get"):
                     if not any(an.reachable(l.block, c.block) and an.reachable(c.block, b) for c in clears):
                         hit = l
                         break
+            if hit is None and fn["kind"] == "Closure":
+                hit = _closure_runs_after_load(F, fn, rng)
             rep.require(hit is not None, rule, key, cs.where(),
                         "reached only after load_bytes of the same range succeeded (fact on every path to the call, incl. data-dependent branches)",
                         "%s calls get_bytes(%s) without a dominating successful load_bytes of exactly that range (the `expect` would panic)"
                         % (fn["qual"], pp(rng)[:160]))
     rep.floor(rule, "get_bytes call sites", n, 8)
     return n
+
+
+def _closure_runs_after_load(F, cfn, rng):
+    """The closure is the mapping function of `load_bytes(r).map(..)` / `.and_then(..)`: it runs only when that load succeeded;
+    the range it passes to get_bytes is its capture of a value equal to r."""
+    parent = F.fn(cfn["qual"].split("::{closure")[0])
+    if parent is None:
+        return None
+    pan = analyze_fn(F, parent)
+    loads = {c.result: c for c in pan.calls() if c.callee_qual == "elf_stream::CachingReader::load_bytes"}
+    for c in pan.calls():
+        if c.declared_norm not in ("result::Result::map", "result::Result::and_then") or len(c.args) != 2:
+            continue
+        clo = c.args[1]
+        if not (clo.op == "agg" and clo.args[0] == "closure" and clo.args[1] == cfn["qual"]):
+            continue
+        l = loads.get(c.args[0])
+        if l is None:
+            continue
+        # which capture is the range handed to get_bytes?
+        cap = rng
+        while cap.op in ("deref", "refval"):
+            cap = cap.args[0]
+        if cap.op == "proj" and cap.args[1][0] == "f" and cap.args[0] in (T.param(1), T.deref(T.param(1))):
+            k = cap.args[1][1]
+            if k < len(clo.args[4]):
+                v = clo.args[4][k]
+                v = pan.read(State_(pan, c), (v.args[0], v.args[1])) if v.op == "ref" else (v.args[0] if v.op == "refval" else v)
+                if v is l.args[1]:
+                    return l
+    return None
+
+
+def State_(an, cs):
+    from .engine import State
+    return State(an.exit_env.get(cs.block, {}), cs.facts)
 
 
 def _same_reader(a, b):
